@@ -17,10 +17,10 @@ type Gen struct {
 	// per-run operand pools (swarm: few values, so that tasks collide on them)
 	decs      []string
 	lits      []string
-	jlits []string // recurring JSON number tokens (P13)
-	heavy     bool // rare runs with extreme arguments
-	wildSpecs bool // also produce malformed format directives (P20: totality)
-	focus     bool // a focus program: the tree has new shared state, schedules lean towards synchronisation events
+	jlits     []string // recurring JSON number tokens (P13)
+	heavy     bool     // rare runs with extreme arguments
+	wildSpecs bool     // also produce malformed format directives (P20: totality)
+	focus     bool     // a focus program: the tree has new shared state, schedules lean towards synchronisation events
 }
 
 func hx(b []byte) string { return hex.EncodeToString(b) }
@@ -388,7 +388,9 @@ var nearMiss = []string{"", ".", "-.", "+.", "-", "+", "1_.5", "1._5", "1_e5", "
 func (g *Gen) InvalidLiteral(scanAlphabetOnly bool) string {
 	for tries := 0; tries < 50; tries++ {
 		var s string
-		switch g.R.N(6) {
+		switch g.R.N(7) {
+		case 6:
+			s = g.LookAlike()
 		case 0, 1:
 			s = nearMiss[g.R.N(len(nearMiss))]
 		case 2: // insert a character of the alphabet somewhere in a valid literal
@@ -434,6 +436,43 @@ func (g *Gen) InvalidLiteral(scanAlphabetOnly bool) string {
 		}
 	}
 	return "1__0"
+}
+
+// LookAlike returns a numeral in which one or two bytes were replaced by
+// bytes that a table lookup, a nibble test or word-at-a-time digit
+// arithmetic might take for a digit: the neighbours of '0'..'9' in the
+// character set, bytes that share a nibble with a digit, digits with the top
+// bit set. Mostly plain digit strings of 1 to 40 bytes (the lengths at which
+// block-wise conversions switch), sometimes with sign, fraction, exponent.
+func (g *Gen) LookAlike() string {
+	var v string
+	if g.R.P(2, 3) {
+		v = g.digits(g.R.Range(1, 40))
+		if g.R.P(1, 4) {
+			v = "-" + v
+		}
+	} else {
+		v = g.ValidLiteral(true, true)
+	}
+	b := []byte(v)
+	for n := g.R.Range(1, 2); n > 0; n-- {
+		i := g.R.N(len(b))
+		var c byte
+		switch g.R.N(6) {
+		case 0, 1:
+			c = byte(0x3a + g.R.N(6)) // : ; < = > ?
+		case 2:
+			c = []byte{'/', '.', '-', '+', ',', '*'}[g.R.N(6)] // 0x2a..0x2f
+		case 3:
+			c = byte(g.R.N(16))<<4 | byte(g.R.N(10)) // low nibble of a digit
+		case 4:
+			c = 0x30 | byte(10+g.R.N(6)) | byte(g.R.N(2))<<7
+		default:
+			c = byte('0'+g.R.N(10)) | 0x80
+		}
+		b[i] = c
+	}
+	return string(b)
 }
 
 // ScanNearMiss builds a white-space free token that is not made of Scan's own
